@@ -1027,3 +1027,9 @@ func init() {
 	mutant("goaway-last-stream-keeps-the-reserved-bit", "small-primitives", "goaway.go", "	ga.stream = stream & (1<<31 - 1)", "	ga.stream = stream & (1<<32 - 1)")
 	mutant("priority-dependency-loses-a-bit", "small-primitives", "priority.go", "	pry.stream = stream & (1<<31 - 1)", "	pry.stream = stream & (1<<30 - 1)")
 }
+
+func init() {
+	mutant("detach-forgets-to-swap", "request-ctx-handoff", "serverConn.go", "	tr.CopyTo(&ctx.Response)\n\n	strm.ctx = ctx\n", "	tr.CopyTo(&ctx.Response)\n")
+	mutant("detach-loses-the-timeout-response", "request-ctx-handoff", "serverConn.go", "	tr.CopyTo(&ctx.Response)\n\n	strm.ctx = ctx\n", "	strm.ctx = ctx\n")
+	mutant("server-write-loop-stops-after-a-good-frame", "server-response-encoding", "serverConn.go", "		case fr := <-sc.writer:\n			if send(fr) != nil {\n				return\n			}\n		case <-sc.writeStop:", "		case fr := <-sc.writer:\n			if send(fr) == nil {\n				return\n			}\n		case <-sc.writeStop:")
+}
